@@ -93,7 +93,7 @@ func TestVerif_C07_statemachine(t *testing.T) {
 		agg.report(r)
 		return
 	}
-	n := r.N(1000, 30000)
+	n := r.N(1000, 16000)
 	r.Parallel(n, run)
 	agg.report(r)
 }
